@@ -4,6 +4,7 @@ import (
 	"context"
 	"fmt"
 	"io"
+	"math"
 	"sort"
 	"sync"
 	"testing/synctest"
@@ -741,6 +742,7 @@ func run(sc *Scenario) (st *stats, err error) {
 		return st, jerr
 	}
 	sc.shapeLabels(emsA, st)
+	sc.edgeLabels(st)
 	ov, col, inter := overlapOf(emsA, n)
 	st.overlap = ov
 	if ov {
@@ -866,14 +868,97 @@ func run(sc *Scenario) (st *stats, err error) {
 		return st, jerr
 	}
 	st.wire, st.wireLimit, st.det = sent, limit, det
+	sc.cfgLabels(st)
+	if det {
+		// ---- same configuration, same seed, observed at the target ---------------------
+		// The Client's generator and the generator built above by queue.New are
+		// built from the same values and the same non-zero seed(s): apart from
+		// the sync responses (the marker, explicit sync values) the Client must
+		// send what Next returned, emission for emission.
+		if derr := sameStream(emsW, emsA, sc); derr != nil {
+			return st, fmt.Errorf("wire: reproducible: the Client's stream is not what queue.New(false, %d, values) emits for the same values and seeds: %v%s", sc.Seed, derr, sc.cfgNote())
+		}
+		st.label("clause-reproducible-client-equals-queue")
+	}
+	if det && sc.Cfg != nil && sc.Cfg.Gen != GenUnset {
+		// A second Client on a deep-equal Config, a moment later on the
+		// (virtual) clock. (Only where the Config carries a generator message:
+		// for a plain Config the comparison above says as much, and a Client run
+		// is the expensive part of a case.)
+		time.Sleep(time.Nanosecond)
+		sent2, ended2, werr := sc.runClient(limit)
+		if werr != nil {
+			return st, werr
+		}
+		if len(sent2) != len(sent) || ended2 != ended {
+			return st, fmt.Errorf("wire: reproducible: two Clients on deep-equal configurations (global seed %d, every value seeded) sent %d responses (ended=%v) and %d responses (ended=%v)%s", sc.Seed, len(sent), ended, len(sent2), ended2, sc.cfgNote())
+		}
+		for k := range sent {
+			if !proto.Equal(sent[k], sent2[k]) {
+				return st, fmt.Errorf("wire: reproducible: two Clients on deep-equal configurations (global seed %d, every value seeded) disagree at response %d: %v versus %v%s", sc.Seed, k, sent[k], sent2[k], sc.cfgNote())
+			}
+		}
+		st.label("clause-reproducible-client-twice")
+	}
 	return st, nil
+}
+
+// sameVal compares two emitted values (NaN equals NaN; an empty string list
+// equals an absent one, the wire does not tell them apart).
+func sameVal(a, b any) bool {
+	switch x := a.(type) {
+	case float64:
+		y, ok := b.(float64)
+		return ok && (x == y && math.Signbit(x) == math.Signbit(y) || x != x && y != y)
+	case []string:
+		y, ok := b.([]string)
+		if !ok || len(x) != len(y) {
+			return false
+		}
+		for i := range x {
+			if x[i] != y[i] {
+				return false
+			}
+		}
+		return true
+	}
+	return a == b
+}
+
+// sameStream compares what a Client sent (wire) with what a generator built
+// by queue.New returned (q), both reduced to (value, timestamp, payload);
+// sync responses cannot be attributed on the wire and are left out on both
+// sides. The shorter of the two is a prefix of the other's length.
+func sameStream(wire, q []em, sc *Scenario) error {
+	var w, g []em
+	for _, e := range wire {
+		if e.idx >= 0 {
+			w = append(w, e)
+		}
+	}
+	for _, e := range q {
+		if e.idx >= 0 && e.idx < len(sc.Values) && sc.Values[e.idx].Kind != KSync {
+			g = append(g, e)
+		}
+	}
+	n := len(w)
+	if len(g) < n {
+		n = len(g)
+	}
+	for k := 0; k < n; k++ {
+		a, b := w[k], g[k]
+		if a.idx != b.idx || a.ts != b.ts || a.noVal != b.noVal || (!a.noVal && !sameVal(a.val, b.val)) {
+			return fmt.Errorf("update %d is value %d at timestamp %d carrying %v on the wire, value %d at timestamp %d carrying %v from the queue", k, a.idx, a.ts, a.val, b.idx, b.ts, b.val)
+		}
+	}
+	return nil
 }
 
 // runClient runs the fake agent's per-subscription Client over an in-memory
 // stream that accepts limit responses. ended: Run returned without the stream
 // having refused a response (the schedule completed).
 func (sc *Scenario) runClient(limit int) (sent []*gpb.SubscribeResponse, ended bool, err error) {
-	cfg := &fpb.Config{Target: "c20", Seed: sc.Seed, Values: sc.buildValues(), DisableSync: sc.DisableSync}
+	cfg := sc.buildConfig(false)
 	ctx, cancel := context.WithCancel(context.Background())
 	defer cancel()
 	sub := &gpb.SubscriptionList{}
